@@ -35,13 +35,15 @@ BORROWED = {
     "C10": {"C11": {"C11-D1a selection": "C10-r3-1, C10-r4-3"},
             "C18": {"C18-D2 no shared state written after import": "C10-r2-2"}},
     "C11": {"C10": {"C10-D2r padding result (refutation)": "C11-r4-3"}},
-    "C13": {"C19": {"C19-D2 build glue": "C13-r3-1"}},
+    "C13": {"C19": {"C19-D2 build glue": "C13-r3-1", "C19-D1d root: installed-manifest identifiers and coverage": "C13-r5-3"}},
     "C14": {"C06": {"C06-D2b result wiring": "C14-r2-3", "C06-D3b CLI file outputs": "C14-r4-2",
                     "C06-G1 no normal exit skips the work": "C14-r2-1"},
             "C18": {"C18-D2 no shared state written after import": "C14-r2-3"}},
     "C16": {"C18": {"C18-D1b no memoisation": "C16-r2-2"}},
     "C17": {"C02": {"C02-D1 shape": "C17-r2-2"}},
-    "C18": {"C05": {"C05-D1a digest forms": "C18-r3-2", "C05-D1f payload classification": "C18-r3-3, C18-r4-2"}},
+    "C18": {"C05": {"C05-D1a digest forms": "C18-r3-2", "C05-D1f payload classification": "C18-r3-3, C18-r4-2"},
+            "C12": {"C12-G2 the analysed effect is present": "C18-r5-2"},
+            "C09": {"C09-D2 no output on refusal": "C18-r5-3"}},
     "C19": {"C05": {"C05-D1a digest forms": "C19-2, C19-r2-2, C19-r3-2, C19-r4-2"},
             "C13": {"C13-D1a description forms": "C19-r2-1"},
             "C20": {"C20-D3c nothing is published for a missing value": "C19-r4-3"}},
@@ -54,4 +56,4 @@ TRAP_FILES = {
 
 # rules that are declared only when they have something to report (a refutation, an exit that skips the work): their absence from a
 # neighbour's run that ended normally means "nothing to report"
-LAZY = {"C05-D1f payload classification", "C05-D1h literal hex recognised", "C05-G1 no normal exit skips the work", "C06-G1 no normal exit skips the work", "C10-D2r padding result (refutation)"}
+LAZY = {"C12-G2 the analysed effect is present", "C05-D1f payload classification", "C05-D1h literal hex recognised", "C05-G1 no normal exit skips the work", "C06-G1 no normal exit skips the work", "C10-D2r padding result (refutation)"}
